@@ -30,6 +30,8 @@ Definition obs_eqb (a b : obs) : bool :=
   | ORun t, ORun t' => Nat.eqb t t'
   | ORet, ORet => true
   | OExt, OExt => true
+  | OEnter t p s, OEnter t' p' s' => Nat.eqb t t' && Nat.eqb p p' && list_nat_eqb s s'
+  | OExit t p s, OExit t' p' s' => Nat.eqb t t' && Nat.eqb p p' && list_nat_eqb s s'
   | _, _ => false
   end.
 
